@@ -397,13 +397,15 @@ fn random_component(rng: &mut StdRng, section: usize, used: &mut Vec<String>) ->
         }
         4 => c_var(ctx_vars[rng.gen_range(0..ctx_vars.len())]),
         5 => json!({"t": "ts", "v": if rng.gen_bool(0.95) { pats[rng.gen_range(0..pats.len())] } else { "QQ" }, "s": [], "n": 0}),
-        6 => json!({"t": "custom", "v": "", "s": to_cps(["k", "a.b", "build_id"][rng.gen_range(0..3)]), "n": 0}),
+        6 => json!({"t": "custom", "v": "", "s": to_cps(CUSTOM_KEYS[rng.gen_range(0..CUSTOM_KEYS.len())]), "n": 0}),
         7..=8 => json!({"t": "str", "v": "", "s": to_cps(texts[rng.gen_range(0..texts.len())]), "n": 0}),
         _ => json!({"t": "uint", "v": "", "s": [], "n": small_or_big(rng)}),
     }
 }
 
 /// a random schema; primary variables are kept in order most of the time
+pub const CUSTOM_KEYS: [&str; 5] = ["k", "a.b", "build_id", "ci/job", "x~1y.z~0"];
+
 pub fn random_schema(rng: &mut StdRng) -> Value {
     let mut used = vec![];
     let mut sec = |rng: &mut StdRng, which: usize| -> Vec<Value> {
